@@ -123,7 +123,7 @@ func c11Gen(rt *rapid.T) c11Prog {
 	for i := 0; i < n; i++ {
 		switch x := gInt(rt, 0, 99, "opk"); {
 		case x < 18:
-			p.Ops = append(p.Ops, wOp{K: "hi", S: 1, A: gPick(rt, []string{"0.22", "0.22", "0.22", "0.21", "0.15", "abc", "", "99"}, "ver")})
+			p.Ops = append(p.Ops, wOp{K: "hi", S: 1, A: gPick(rt, []string{"0.22", "0.22", "0.22", "0.21", "0.15", "abc", "", "99", "0.22.1", "0.22.7", "0.22.1"}, "ver")})
 		case x < 42:
 			var op wOp
 			if gPct(rt, 75) {
@@ -135,6 +135,10 @@ func c11Gen(rt *rapid.T) c11Prog {
 				op = wOp{K: "login", S: 1, A: gPick(rt, []string{"nosuch", "", "anon", "code"}, "scheme"), B: "x"}
 			}
 			p.Ops = append(p.Ops, op)
+			if op.A == "token" && op.B == "nologin" && gPct(rt, 60) {
+				// the reply to a restricted token carries a token again: it is as restricted as the first
+				p.Ops = append(p.Ops, wOp{K: "login", S: 1, A: "token", B: "returned"})
+			}
 			if op.A == "basic" && gPct(rt, 40) {
 				// the client logs in again with whatever token the reply carried (also a 300 "validate credentials" reply carries one)
 				p.Ops = append(p.Ops, wOp{K: "login", S: 1, A: "token", B: "returned"})
@@ -158,7 +162,20 @@ func c11Gen(rt *rapid.T) c11Prog {
 			}
 		case x < 56:
 			// create a new account, mostly asking to be logged in as that account right away
-			p.Ops = append(p.Ops, wOp{K: "acc", S: 1, B: "new", A: fmt.Sprintf("newbie%d:%s", i, c11Password), F: gPct(rt, 75)})
+			acc := wOp{K: "acc", S: 1, B: "new", A: fmt.Sprintf("newbie%d:%s", i, c11Password), F: gPct(rt, 75)}
+			if gPct(rt, 70) {
+				// with an address to be validated: no response can be given yet (sometimes a made-up one is)
+				acc.X = []string{fmt.Sprintf("%s:newbie%d@example.com%s", wValidatorName, i, gPick(rt, []string{"", "", "", "|123456", "|000000"}, "resp"))}
+			}
+			p.Ops = append(p.Ops, acc)
+			if gPct(rt, 50) {
+				// the link in the confirmation message carries a temporary token: it must not log anybody in
+				p.Ops = append(p.Ops, wOp{K: "login", S: 1, A: "token", B: "mailed", U: gInt(rt, 0, 3, "um")})
+				if gPct(rt, 60) {
+					p.Ops = append(p.Ops, wOp{K: "login", S: 1, A: "token", B: "returned"})
+				}
+				p.Ops = append(p.Ops, wOp{K: "get", S: 1, T: "me", A: "desc"})
+			}
 		default:
 			p.Ops = append(p.Ops, reqs())
 		}
@@ -178,6 +195,7 @@ type c11Obs struct {
 	served   int
 	reached  bool
 	retTok   bool // a login used the token handed out by an earlier login reply
+	retRestricted bool // the token handed out last answered a login with a restricted (no-login) token
 	unknown  bool // the session created an account and logged in as it: the model does not follow further
 }
 
@@ -186,10 +204,11 @@ func (o *c11Obs) doSetup(w *wWorld) {
 	o.uid = -1
 	globals.authValidators = nil
 	if o.p.Validators {
-		globals.authValidators = map[auth.Level][]string{auth.LevelAuth: {"email"}}
-		// users 0 and 1 have a validated e-mail, user 2 does not
+		wUseValidator(true, false)
+		globals.authValidators = map[auth.Level][]string{auth.LevelAuth: {wValidatorName}}
+		// users 0 and 1 have a validated address, user 2 does not
 		for _, u := range []int{0, 1} {
-			store.Users.UpsertCred(&types.Credential{User: w.users[u].uid.String(), Method: "email", Value: fmt.Sprintf("u%d@example.com", u), Done: true})
+			store.Users.UpsertCred(&types.Credential{User: w.users[u].uid.String(), Method: wValidatorName, Value: fmt.Sprintf("u%d@example.com", u), Done: true})
 		}
 	}
 	basic := store.Store.GetAuthHandler("basic")
@@ -257,6 +276,10 @@ func (o *c11Obs) After(w *wWorld, st *wStep) *kit.Viol {
 			if !uidNow.IsZero() {
 				if !st.Op.F {
 					return kit.V("acc-new-logged-in-unasked", "{acc user=new} without login=true authenticated the session as %s", uidNow.UserId())
+				}
+				if o.p.Validators {
+					// a validated address is required at this level and none can be validated at creation
+					return kit.V("acc-new-logged-in-without-validated-credential", "%s was answered %d and authenticated the session as %s although the required credential has not been validated", st.Req, code, uidNow.UserId())
 				}
 				o.unknown = true
 			}
@@ -352,13 +375,16 @@ func (o *c11Obs) After(w *wWorld, st *wStep) *kit.Viol {
 				if len(req.Login.Secret) >= 18 {
 					u := w.userIdx(types.Uid(binary.LittleEndian.Uint64(req.Login.Secret[:8])))
 					// a token marked "not for logging in" (handed out in reply to such a token) never authenticates
-					noLogin := auth.Feature(binary.LittleEndian.Uint16(req.Login.Secret[16:18]))&auth.FeatureNoLogin != 0
+					noLogin := auth.Feature(binary.LittleEndian.Uint16(req.Login.Secret[16:18]))&auth.FeatureNoLogin != 0 || o.retRestricted
 					if okUser, _ := o.userOK(u); u >= 0 && okUser && !noLogin {
 						want = u
 					}
 					o.retTok = true
 				}
 				break
+			}
+			if st.Op.B == "mailed" {
+				break // a restricted token: never authenticates
 			}
 			sameAsValid := st.Op.B == "valid" || st.Op.B == "expiring" ||
 				(st.Op.B == "levelup" && st.Op.U >= 0 && st.Op.U < len(w.users) && w.users[st.Op.U].level == auth.LevelRoot)
@@ -373,6 +399,13 @@ func (o *c11Obs) After(w *wWorld, st *wStep) *kit.Viol {
 						want = u
 					}
 				}
+			}
+		}
+		if c != nil {
+			if m, ok := c.Params.(map[string]any); ok && m["token"] != nil {
+				// restricted in, restricted out
+				presented := st.Op.A == "token" && (st.Op.B == "nologin" || st.Op.B == "mailed" || (st.Op.B == "returned" && o.retRestricted))
+				o.retRestricted = presented
 			}
 		}
 		got := w.userIdx(ss.s.uid)
